@@ -406,6 +406,16 @@ Definition time_long_value (mult : Z) (t : timeval) : Z :=
     else wrap64 (s * 1000000000 + n)
   end.
 
+(* the codec serves an array or map schema: what buildPointerCodec asks of the
+   schema, read off the codec (CArray/CMap are built for those schemas only;
+   pointers and registered codecs stand for the schema of what they wrap) *)
+Fixpoint coll (c : codec) {struct c} : bool :=
+  match c with
+  | CArray _ _ _ | CMap _ _ _ => true
+  | CPtr c' _ | CCustom _ c' => coll c'
+  | _ => false
+  end.
+
 Fixpoint c_write (c : codec) (v : gval) {struct c} : option bytes :=
   match c, v with
   | CNull, _ => Some []
@@ -443,9 +453,9 @@ Fixpoint c_write (c : codec) (v : gval) {struct c} : option bytes :=
                                end) kvs))
       end
   | CPtr c' _, VPtr None =>
-      (* nil: nothing is written, except that a pointer to a slice or map codec
-         writes the empty collection *)
-      Some (match c' with CArray _ _ _ | CMap _ _ _ => [0] | _ => [] end)
+      (* nil: nothing is written, except that under an array or map schema
+         (buildPointerCodec decides by the schema) the empty collection is *)
+      Some (if coll c' then [0] else [])
   | CPtr c' _, VPtr (Some x) => c_write c' x
   | CUnion _, _ => None
   | CUnionOne c' nn, _ =>
